@@ -259,13 +259,26 @@ func genCase(t *rapid.T) Case {
 		i := pick(len(toks), "rep")
 		toks[i] = alphabet[pick(len(alphabet), "reptok")]
 	}
-	switch pick(3, "join") {
+	switch pick(4, "join") {
 	case 0:
 		c.Src = fw.BStr(strings.Join(toks, " "))
 	case 1:
 		c.Src = fw.BStr(joinTight(toks))
-	default:
+	case 2:
 		c.Src = fw.BStr(" " + strings.Join(toks, " \t\n") + "\r")
+	default:
+		// every gap its own run of 1-3 whitespace characters in any order (XPath ExprWhitespace: #x20 #x9 #xD #xA)
+		var b strings.Builder
+		for i, t := range toks {
+			if i > 0 {
+				n := 1 + pick(3, "wslen")
+				for j := 0; j < n; j++ {
+					b.WriteByte(" \t\r\n"[pick(4, "wschar")])
+				}
+			}
+			b.WriteString(t)
+		}
+		c.Src = fw.BStr(b.String())
 	}
 	if pick(12, "badutf") == 0 && len(c.Src) > 0 {
 		i := pick(len(c.Src)+1, "utfpos")
